@@ -31,7 +31,7 @@ import (
 )
 
 var P = h.New("C20", "exploration",
-	"case = a rule-conforming chain whose invocation carries 0..8 arguments and metadata keys inserted in a drawn order (mostly neither Go-sorted nor CBOR-canonical), tokens constructed or decoded, plus histories over the read-only operation alphabet {ExecutionAllowed, ExecutionAllowedWithArgsHook, ToSealed, ToDagCbor, ToDagJson, ToSealedWriter, every accessor, Arguments().{Iter,String,ToIPLD,Equals,GetNode}, Meta().{Iter,String,Get*}, Policy().{String,Match}, IsValidAt/Now} on the invocation and on the shared delegations. (a) sequential: a deep structural snapshot of every token (reflection over unexported fields: key slices, maps, IPLD nodes, times) taken before the history must equal the snapshot after EACH operation, and each operation must return the same result the second time. (b) concurrent (race-detector build): 2..8 goroutines run drawn histories on the same tokens; no data race, and every result equals the result of the same operation on a private copy. Non-trivial = the invocation has >= 2 argument or metadata keys whose insertion order differs from sorted order and the history contains a key-touching operation (and, for (b), >= 2 goroutines). Distinct by (key-order pattern, operation multiset, goroutine count).")
+	"case = a rule-conforming chain whose invocation carries 0..8 arguments and metadata keys inserted in a drawn order (mostly neither Go-sorted nor CBOR-canonical), tokens constructed or decoded, plus histories over the read-only operation alphabet {ExecutionAllowed, ExecutionAllowedWithArgsHook, ToSealed, ToDagCbor, ToDagJson, ToSealedWriter, every accessor, Arguments().{Iter,String,ToIPLD,Equals,GetNode}, Meta().{Iter,String,Get*}, Policy().{String,Match}, IsValidAt/Now} on the invocation and on the shared delegations. (a) sequential: a deep structural snapshot of every token (reflection over unexported fields: key slices, maps, IPLD nodes, times) taken before the history must equal the snapshot after EACH operation, and each operation must return the same result the second time. (b) concurrent (race-detector build): 2..8 goroutines run drawn histories on the same tokens; no data race, and every result equals the result of the same operation run alone on the same token beforehand. Non-trivial = the invocation has >= 2 argument or metadata keys whose insertion order differs from sorted order and the history contains a key-touching operation (and, for (b), >= 2 goroutines). Distinct by (key-order pattern, operation multiset, goroutine count).")
 
 func TestMain(m *testing.M) { os.Exit(P.Main(m)) }
 func TestReplay(t *testing.T) { P.Replay(t) }
@@ -478,18 +478,17 @@ func runConc(c *h.Ctx, cc ConcCase) {
 		c.P.Class("build-error")
 		return
 	}
-	// expected results from a private copy, computed sequentially
-	priv, err := build(cc.Chain)
-	if err != nil {
-		return
-	}
+	// expected results: the same operations run alone (sequentially, before any
+	// goroutine starts) on the same tokens. A separately constructed copy would
+	// differ in wall-clock derived fields (iat) when the two constructions
+	// straddle a second boundary.
+	before := allSnaps(w)
 	expected := make([][]string, len(cc.Hists))
 	for g, hist := range cc.Hists {
 		for _, st := range hist {
-			expected[g] = append(expected[g], priv.apply(st.Op, st.Which))
+			expected[g] = append(expected[g], w.apply(st.Op, st.Which))
 		}
 	}
-	before := allSnaps(w)
 	got := make([][]string, len(cc.Hists))
 	var wg sync.WaitGroup
 	start := make(chan struct{})
@@ -510,7 +509,7 @@ func runConc(c *h.Ctx, cc ConcCase) {
 	for g, hist := range cc.Hists {
 		for i, st := range hist {
 			if got[g][i] != expected[g][i] {
-				c.Fail("C20/concurrent-result-differs/"+st.Op, "goroutine %d, step %d (%s): result under concurrency differs from the result on a private copy:\n shared  %.300s\n private %.300s", g, i, st.Op, got[g][i], expected[g][i])
+				c.Fail("C20/concurrent-result-differs/"+st.Op, "goroutine %d, step %d (%s): result under concurrency differs from the result of the same operation run alone:\n concurrent %.300s\n alone      %.300s", g, i, st.Op, got[g][i], expected[g][i])
 				return
 			}
 			if keyTouching[st.Op] {
